@@ -294,3 +294,203 @@ class CollectionInit(Contract):
     def raises(self, cx, ex):
         return [('C11.rejected_with_InvalidMosCollection[%s]' % ex.value.name(), z3.BoolVal(ex.value.name() == 'InvalidMosCollection')),
                 ('C11.rejected_only_when_the_list_does_not_describe_one_running_order', z3.Not(self.accept(cx)))]
+
+
+# ------------------------------------------------------------------ ordering (C10) and readers (C18)
+from .assumed_lib import wellformed, parse_root, file_text, file_readable
+from pyvc.logic import int_of, is_int
+
+doc_cls = L.mkfun('doc_class', Node, L.Cls)          # class the library assigns to the document with this root (C08)
+doc_ok = L.mkfun('doc_classifiable', Node, L.B)      # classification succeeds (C08) and the message is schema-shaped
+
+
+def reader_for_root(E, root, src_kind, src_val):
+    cls = E.repo.cls('MosReader')
+    State._oid[0] += 1
+    H0 = L.Heap(0, 0)
+    return SObj(cls, State._oid[0], init_fields={
+        '_message_id': SInt(int_of(text(H0.find(root, E.W.lit('messageID'))))),
+        '_ro_id': SStr(L.mkfun('doc_roid', Node, Str)(root)),
+        '_mos_type': SSymCls(doc_cls(root)),
+        '_restore_fn': NONE, '_restore_args': NONE, '$root': SNode(root), '$src': src_val})
+
+
+@contract('mosromgr.moscollection.MosReader.from_string')
+class ReaderFromString(Contract):
+    """caller-facing: a reader is a function of the document text (message id = numeric messageID, class per C08)"""
+    props = ()
+    body_proved = False
+
+    def cases(self, cx):
+        s = cx.a['mos_file_contents']
+        root = parse_root(s.t)
+        ok = A(wellformed(s.t), doc_ok(root))
+        return [Case('reader', ret=reader_for_root(cx.E, root, 'string', s), assume=[ok]),
+                Case('invalid', exc='MosRoMgrException', assume=[z3.Not(ok)])]
+
+
+@contract('mosromgr.moscollection.MosReader.from_file')
+class ReaderFromFile(Contract):
+    props = ()
+    body_proved = False
+
+    def cases(self, cx):
+        s = cx.a['mos_file_path']
+        root = parse_root(file_text(s.t))
+        ok = A(file_readable(s.t), wellformed(file_text(s.t)), doc_ok(root))
+        return [Case('reader', ret=reader_for_root(cx.E, root, 'file', s), assume=[ok]),
+                Case('invalid', exc='MosRoMgrException', assume=[file_readable(s.t), z3.Not(ok)]),
+                Case('unreadable', exc='OSError', assume=[z3.Not(file_readable(s.t))])]
+
+
+@contract('builtin.sorted')
+class Sorted(Contract):
+    """A-SORT: sorted(xs) is a permutation of xs with no adjacent inversion w.r.t. the elements' real __lt__
+    (the real MosReader.__lt__ / MosFile.__lt__ body is executed symbolically for two arbitrary elements)"""
+    assumed = True
+    props = ()
+
+    def apply(self, E, st, bound):
+        xs = bound['xs']
+        E.assumed_used.add('A-SORT')
+        E.used_contracts.add('builtin.sorted')
+        W = E.W
+        n = xs.length
+        perm = W.fresh_fun('perm', L.I, L.I)
+        inv = W.fresh_fun('perm_inv', L.I, L.I)
+        j = z3.Int('j!s')
+        st.assume(z3.ForAll([j], Imp(A(0 <= j, j < n), A(0 <= perm(j), perm(j) < n, inv(perm(j)) == j)), patterns=[perm(j)]))
+        st.assume(z3.ForAll([j], Imp(A(0 <= j, j < n), A(0 <= inv(j), inv(j) < n, perm(inv(j)) == j)), patterns=[inv(j)]))
+        # one symbolic evaluation of `b < a` with the real __lt__
+        a, b = W.fresh('sa', L.I), W.fresh('sb', L.I)
+        ea, eb = xs.elem(a), xs.elem(b)
+        lt = ea.cls.lookup('__lt__') if isinstance(ea, SObj) else None
+        if lt is None:
+            raise Exception('sorted() of elements without __lt__')
+        res = E.call_function(lt, [eb, ea], {}, st.fork())
+        res = [(s, v) for s, v in res]
+        if len(res) != 1 or isinstance(res[0][1], Raised) or not isinstance(res[0][1], SBool):
+            from pyvc.symexec import ToolLimit
+            raise ToolLimit('__lt__ is not a total, single-path comparison: sorted() may raise')
+        inv_ab = res[0][1].t      # elem(b) < elem(a)
+        st.assume(z3.ForAll([j], Imp(A(0 <= j, j + 1 < n),
+                                     z3.Not(z3.substitute(inv_ab, (a, perm(j)), (b, perm(j + 1))))), patterns=[perm(j)]))
+        out = SList(n, lambda k: xs.elem(perm(k)), desc='sorted(%s)' % xs.desc)
+        out.perm, out.perm_inv, out.base = perm, inv, xs
+        return [(st, out)]
+
+
+class LtContract(Contract):
+    opaque = False
+    props = ('C10',)
+
+    def ensures(self, cx, ex):
+        return [('C10.ordered_by_numeric_message_id', A(z3.BoolVal(isinstance(ex.value, SBool)),
+                                                        ex.value.t == (self.mid(cx, 'self') < self.mid(cx, 'other'))) if isinstance(ex.value, SBool) else z3.BoolVal(False))]
+
+    def raises(self, cx, ex):
+        return [('C10.comparison_never_raises[%s]' % ex.value.name(), z3.BoolVal(False))]
+
+
+@contract('mosromgr.moscollection.MosReader.__lt__')
+class ReaderLt(LtContract):
+    def entry(self, E):
+        st = State(L.Heap(0, 0), z3.IntVal(0))
+        a, b = E.W.fresh('ka', L.I), E.W.fresh('kb', L.I)
+        return st, {'self': reader_obj(E, a), 'other': reader_obj(E, b)}
+
+    def mid(self, cx, who):
+        return cx.st.fields(cx.a[who])['_message_id'].t
+
+
+@contract('mosromgr.mostypes.MosFile.__lt__')
+class MosFileLt(LtContract):
+    def entry(self, E):
+        W = E.W
+        st = State(L.Heap(0, 0), z3.IntVal(0))
+        objs = {}
+        for who in ('self', 'other'):
+            o = SObj(E.repo.cls('MosFile'), st.new_obj(None))
+            st.objs[o.oid] = {'_xml': SNode(W.fresh(who + '_root', Node)), '_base_tag': NONE}
+            objs[who] = o
+        return st, objs
+
+    def requires(self, cx):
+        out = []
+        for who in ('self', 'other'):
+            root = cx.st.fields(cx.a[who])['_xml'].t
+            mid = cx.H.find(root, cx.W.lit('messageID'))
+            out.append(('Shape.%s_messageID' % who, A(root != null, mid != null, is_int(text(mid)))))
+        return out
+
+    def mid(self, cx, who):
+        root = cx.st.fields(cx.a[who])['_xml'].t
+        return int_of(text(cx.H.find(root, cx.W.lit('messageID'))))
+
+
+class FromManyContract(Contract):
+    """MosCollection.from_strings / from_files: readers are handed to the constructor in ascending numeric
+    message id order and are a permutation of the supplied inputs"""
+    props = ('C10', 'C18')
+    arg = None
+
+    def entry(self, E):
+        W = E.W
+        st = State(L.Heap(0, 0), z3.IntVal(0))
+        n = W.fresh('n_inputs', L.I)
+        st.assume(n >= 0)
+        f = W.fresh_fun('input', L.I, Str)
+        xs = SList(n, lambda k: SStr(f(k)), desc='inputs')
+        xs.elemkind = 'str'
+        j = z3.Int('j!in')
+        st.assume(z3.ForAll([j], f(j) != none_s, patterns=[f(j)]))
+        return st, {'cls': SCls(E.repo.cls('MosCollection')), self.arg: xs, 'allow_incomplete': SBool(W.fresh('allow', L.B))}
+
+    def ensures(self, cx, ex):
+        inits = [a for a in ex.st.addlog if a[0] == 'init']
+        if len(inits) != 1:
+            return [('C10.constructs_one_collection_from_the_sorted_readers', z3.BoolVal(False))]
+        rd = inits[0][1]
+        n = cx.a[self.arg].length
+        j, j2 = z3.Ints('j!o j2!o')
+        mid = lambda jj: ex.st.fields(rd.elem(jj))['_message_id'].t if False else fields_mid(ex.st, rd.elem(jj))
+        perm = getattr(rd, 'perm', None)
+        out = [('C10.readers_in_ascending_numeric_message_id_order',
+                z3.ForAll([j], Imp(A(0 <= j, j + 1 < rd.length), mid(j) <= mid(j + 1))))]
+        out.append(('C10+C18.every_supplied_input_becomes_exactly_one_reader',
+                    A(rd.length == n, z3.BoolVal(perm is not None),
+                      z3.ForAll([j], Imp(A(0 <= j, j < n), A(0 <= rd.perm_inv(j), rd.perm_inv(j) < n, perm(rd.perm_inv(j)) == j))) if perm is not None else z3.BoolVal(False))))
+        return out
+
+    def raises(self, cx, ex):
+        # an input that cannot be read / classified propagates its error (no collection is built)
+        return [('C10.only_input_or_validation_errors[%s]' % ex.value.name(),
+                 z3.BoolVal(exc_isinstance(ex.value.cls, 'MosRoMgrException') or ex.value.name() == 'OSError'))]
+
+
+def fields_mid(st, o):
+    f = st.objs[o.oid] if o.oid in st.objs else o.init_fields
+    return f['_message_id'].t
+
+
+@contract('mosromgr.moscollection.MosCollection.from_strings')
+class FromStrings(FromManyContract):
+    arg = 'mos_file_strings'
+
+
+@contract('mosromgr.moscollection.MosCollection.from_files')
+class FromFiles(FromManyContract):
+    arg = 'mos_file_paths'
+
+
+def _init_cases(self, cx):
+    """caller-facing view of MosCollection(...): the reader list handed over is recorded in the ghost log"""
+    rd = cx.a['mos_readers']
+    me = cx.a['self']
+
+    def eff(st):
+        st.addlog.append(('init', rd))
+    return [Case('constructed', ret=NONE, effect=eff), Case('rejected', exc='InvalidMosCollection', effect=eff)]
+
+
+CollectionInit.cases = _init_cases
